@@ -46,6 +46,9 @@ type Facets struct {
 var AllFacets = Facets{true, true, true, true, true}
 var NoStats = Facets{true, true, true, true, false}
 
+// copyLocs copies the locations a posting handed out and then treats the
+// slice as the caller's own: its elements are reversed and the first one is
+// set to nil. What the iterator delivers next must not depend on that.
 func copyLocs(ls []segment.Location) []Loc {
 	if len(ls) == 0 {
 		return nil
@@ -54,6 +57,10 @@ func copyLocs(ls []segment.Location) []Loc {
 	for i, l := range ls {
 		rv[i] = Loc{Field: l.Field(), Pos: l.Pos(), Start: l.Start(), End: l.End()}
 	}
+	for i, j := 0, len(ls)-1; i < j; i, j = i+1, j-1 {
+		ls[i], ls[j] = ls[j], ls[i]
+	}
+	ls[0] = nil
 	return rv
 }
 
